@@ -282,6 +282,8 @@ Section ProofModel.
       match ap, rw with
       | [], [] => Ok cur
       | _, _ =>
+        if 64 <=? layer then Err      (* repaired: inconsistent arguments, the Go code returns nil *)
+        else
         let d := bit_at idx layer in
         let '(inc1, init1, ap1, cur1) :=
           match ap with
@@ -300,7 +302,7 @@ Section ProofModel.
       end
     end.
 
-  (* CalculateRootFromRightWitness; OutOfFuel = the Go loop does not terminate *)
+  (* CalculateRootFromRightWitness; Err = nil result (more hashes than the 64 index digits can place) *)
   Definition root_from_right_witness (idx : N) (ap rw : list Hsh) : outcome Hsh :=
     match ap, rw with
     | [], _ => Ok (root_from_path rw)
